@@ -337,7 +337,7 @@ def main(run, args):
     # ---- Coq evaluation
     mism = []
     coq_cases = 0
-    if proofs_ok:
+    if model_ready(proofs_ok):
         jobs = [("R", c) for c in recip_cases] + [("A", c) for c in adm_cases]
         nsh = 16
         shards = [jobs[i::nsh] for i in range(nsh) if jobs[i::nsh]]
